@@ -40,12 +40,17 @@ fn main() {
             let out = args[5].clone();
             let mut threads = std::thread::available_parallelism().map(|n| n.get()).unwrap_or(4).min(16);
             let mut build = String::from("?");
+            let mut secondary = false;
             let mut i = 6;
             while i < args.len() {
                 match args[i].as_str() {
                     "--threads" => {
                         threads = args[i + 1].parse().unwrap_or(threads);
                         i += 2;
+                    }
+                    "--secondary" => {
+                        secondary = true;
+                        i += 1;
                     }
                     "--build" => {
                         build = args[i + 1].clone();
@@ -61,6 +66,7 @@ fn main() {
                 threads,
                 as_c18: false,
                 release: !cfg!(debug_assertions),
+                secondary,
             };
             let t0 = Instant::now();
             let mut rep = report::Report::new();
@@ -86,17 +92,17 @@ fn main() {
             for h in &ctx.hits {
                 let rp = json!({"kind":"monitor-hit","monitor":format!("{:?}", h.kind),"entry":h.entry,"case":h.case,"detail":h.detail});
                 match h.kind {
-                    mon::HitKind::Panic => rep.violation(
+                    mon::HitKind::Panic => crate::viol!(rep, 
                         format!("{}:unexpected-panic:{}", prop, h.entry),
                         format!("API call {} panicked on valid input: {} (case {})", h.entry, h.detail, h.case),
                         rp,
                     ),
-                    mon::HitKind::Range if prop == "C04" => rep.violation(
+                    mon::HitKind::Range if prop == "C04" => crate::viol!(rep, 
                         format!("C04:range-observer:{}", h.entry),
                         format!("{} returned {} (case {})", h.entry, h.detail, h.case),
                         rp,
                     ),
-                    mon::HitKind::Alloc if prop == "C18" => rep.violation(
+                    mon::HitKind::Alloc if prop == "C18" => crate::viol!(rep, 
                         format!("C18:heap-allocation:{}", h.entry),
                         format!("{}: {} (case {})", h.entry, h.detail, h.case),
                         rp,
@@ -183,30 +189,42 @@ fn main() {
 fn replay_history(j: &Value) -> i32 {
     let case = &j["case"];
     let scanner = case["scanner"].as_str().unwrap_or("?").to_string();
-    let events: Vec<scan::Ev> = case["events"]
-        .as_array()
-        .map(|a| a.iter().filter_map(|e| e.as_str().and_then(scan::Ev::parse)).collect())
-        .unwrap_or_default();
+    let mut events: Vec<scan::Ev> = Vec::new();
+    for e in case["events"].as_array().map(|a| a.as_slice()).unwrap_or(&[]) {
+        let Some(t) = e.as_str() else { continue };
+        if let Some(rest) = t.strip_prefix("repeat ") {
+            // "repeat <n>x: ev | ev"
+            if let Some((n, body)) = rest.split_once("x: ") {
+                let n: usize = n.parse().unwrap_or(0);
+                let evs: Vec<scan::Ev> = body.split(" | ").filter_map(scan::Ev::parse).collect();
+                for _ in 0..n {
+                    events.extend(evs.iter().copied());
+                }
+            }
+        } else if let Some(ev) = scan::Ev::parse(t) {
+            events.push(ev);
+        }
+    }
+    let quiet = events.len() > 400;
     let mut rep = report::Report::new();
     println!("scanner={} timeout_ns={} events={}", scanner, case["timeout_ns"], events.len());
-    let mut sofar: Vec<String> = Vec::new();
     match scanner.as_str() {
         "cc14" => {
             let mut m = scan::Cc14Mon::new();
             for e in &events {
-                sofar.push(e.render());
-                let s2 = sofar.clone();
-                let o = m.apply(e, &mut rep, &|| s2.clone());
-                println!("  {:<12} -> {:?}", e.render(), o);
+                let o = m.apply(e, &mut rep, &|| vec!["(see replay file)".to_string()]);
+                if !quiet || o.is_some() {
+                    println!("  {:<12} -> {:?}", e.render(), o);
+                }
             }
         }
         "pn" => {
             let mut m = scan::PnMon::new();
             for e in &events {
-                sofar.push(e.render());
-                let s2 = sofar.clone();
-                let o = m.apply(e, &mut rep, &|| s2.clone());
-                println!("  {:<12} -> {:?}", e.render(), o);
+                let o = m.apply(e, &mut rep, &|| vec!["(see replay file)".to_string()]);
+                if !quiet || o.is_some() {
+                    println!("  {:<12} -> {:?}", e.render(), o);
+                }
             }
         }
         #[cfg(feature = "std")]
@@ -214,10 +232,10 @@ fn replay_history(j: &Value) -> i32 {
             let t = case["timeout_ns"].as_u64().unwrap_or(0);
             let mut m = poll::PollMon::new(t);
             for e in &events {
-                sofar.push(e.render());
-                let s2 = sofar.clone();
-                let o = m.apply(e, &mut rep, &|| s2.clone());
-                println!("  {:<12} (t={}) -> {:?}", e.render(), m.now, o);
+                let o = m.apply(e, &mut rep, &|| vec!["(see replay file)".to_string()]);
+                if !quiet || o != [None, None] {
+                    println!("  {:<12} (t={}) -> {:?}", e.render(), m.now, o);
+                }
             }
         }
         _ => {
